@@ -294,6 +294,15 @@ func verifRoot() string {
 	return "/verif"
 }
 
+// outRoot is where evidence and replay files go (default: the verif root;
+// FITSIM_OUT redirects them for runs against scratch copies of the repository).
+func outRoot() string {
+	if r := os.Getenv("FITSIM_OUT"); r != "" {
+		return r
+	}
+	return verifRoot()
+}
+
 func loadKnown() *knownFile {
 	kf := &knownFile{}
 	b, err := os.ReadFile(filepath.Join(verifRoot(), "known_findings.json"))
